@@ -21,6 +21,7 @@ import numpy as np
 
 from sexp import Sym
 from props import _reduce_util as U
+from props import _c31x as X
 
 PROP = "C31"
 READY = True
@@ -460,7 +461,7 @@ def case_joint(ctx, inp):
 
 CASES = {"joint": case_joint, "tensordot": case_tensordot, "prod": case_prod, "einsum": case_einsum, "contract": case_contract,
          "einsumblocks": case_einsumblocks,
-         "tsqrplan": case_tsqrplan, "qr": case_qr, "svd": case_svd}
+         "tsqrplan": case_tsqrplan, "qr": case_qr, "svd": case_svd, "tsqrwire": X.case_tsqrwire}
 CASES = {k: U.pure_sources(v) for k, v in CASES.items()}
 
 
@@ -661,3 +662,6 @@ def generate(ctx):
     yield from gen_einsumblocks(ctx, ctx.n(100, 1200))
     yield from gen_qr_svd(ctx, ctx.n(90, 900), "qr")
     yield from gen_qr_svd(ctx, ctx.n(90, 900), "svd")
+    yield from X.gen_tsqrwire(ctx, ctx.n(110, 1100))
+    if ctx.thorough():
+        yield from X.exhaustive_tsqrwire(ctx)
